@@ -32,7 +32,7 @@ RULE = ("sched: case = (topology threads|processes, 2-4 callers each with 1-3 ge
 ASSUMPTIONS = [
     "the schedule is owned at the granularity of lock acquire/release, every read/write of a shared counter, every inner-cache operation (with yield points inside a write and a removal) and time.sleep; the OS scheduler, signals and workers dying without running their epilogue are not modelled",
     "a caller never nests get_set on two different keys whose 16-bit hashes collide, and never calls rmv inside a with-block (lock-order deadlocks of the caller's own making are outside the property)",
-    "injected failures are Exception subclasses raised by the getter or inside the with-body",
+    "injected failures are Exception subclasses raised by the getter or inside the with-body; a BaseException (interrupt) while streaming is only injected into DiskCacher itself, not through ConcurrentCacher",
     "the inner cache double reports a key as present from the moment its write begins (as DiskCacher does) and removes a partially written entry when the getter fails (as DiskCacher does)",
 ]
 
@@ -41,6 +41,9 @@ assert cachers_mod.ConcurrentCacher(MemoryCacher())._index("k74") == cachers_mod
 
 class Injected(Exception):
     pass
+
+class Interrupt(BaseException):
+    """Stands for KeyboardInterrupt/SystemExit arriving while a getter is streaming its value."""
 
 # ------------------------------------------------------------------------------------------------ monitor + inner cache double
 class Entry:
@@ -408,6 +411,24 @@ def run_torn(case):
                 if i == j: raise Injected("getter")
                 yield l
             raise Injected("getter")
+        # ... also when the failure is not an Exception subclass (an interrupt while the value is streamed to disk);
+        # asserted for DiskCacher itself, whose handler is written to cover it
+        def interrupted():
+            for i, l in enumerate(lines):
+                if i == j: raise Interrupt()
+                yield l
+            raise Interrupt()
+        try:
+            with dc.get_set(key, interrupted) as f:
+                list(f)
+            raise Violation("an interrupted getter did not propagate")
+        except Interrupt:
+            pass
+        require(key not in dc, "a getter interrupted part-way left an entry behind", fail_after=j, lines=lines)
+        with dc.get_set(key, lambda: iter(other)) as f:
+            served = [l.rstrip("\n") for l in f]
+        require(served == other, "value served after an interrupted getter is not the complete new value", served=served, lines=lines, fail_after=j)
+        dc.rmv(key)
         for cc in (dc, ConcurrentCacher(dc)):
             try:
                 with cc.get_set(key, failing) as f:
